@@ -58,4 +58,20 @@ META = {
         "level_note": "trusted: oracles in vf/mon/chunklaws.py; rows of positive length; exhaustive only within the stated grid",
         "technique": "runtime contracts (pre/post-condition oracles) on the real Chunk/Rechunker over exhaustive small-scope inputs; numba bounds-check pass on split_array",
     },
+    "C01": {
+        "level_text": (
+            "Random plugin graphs of all plugin kinds named in the property are run through the real "
+            "Context.get_iter under random independent chunkings per source (empty and zero-duration chunks "
+            "included), both processors, lazy/eager, worker pools, rechunk on/off, tiny to huge chunk target "
+            "sizes and a random stored subset made under a different chunking; the yielded rows, tiling and "
+            "containment are compared with a whole-run oracle, everything stored is re-loaded from a fresh "
+            "context and compared, and chunk-law monitors watch every Chunk split/concatenate/merge/rechunk "
+            "strax performs. Schedules are OS-chosen here; controlled schedules are in C05/C06/C13."
+        ),
+        "level_note": (
+            "trusted: harness plugins + whole-run oracle (vf/harness); capacity drawn above the lag; real-thread "
+            "timeouts are inconclusive; bounds: <= 2 sources, <= 6 derived plugins, <= 14 rows per source"
+        ),
+        "technique": "differential runtime oracle (chunked real pipeline vs whole-run reference) on random graphs/chunkings/configs + always-on chunk-law contracts",
+    },
 }
